@@ -620,7 +620,7 @@ def c17(tier):
                   "terminal, by the independent position model; start <= end, inside the document, non-overlapping where the procedures do "
                   "not share lines.",
                   ["well-formedness on broken documents is covered by C02's sweep"],
-                  "canon,min,nl,crlf,cmtall", 4, 0)
+                  "canon,min,nl,crlf,cr,cmtall", 4, 0)
 
 
 # ---------------------------------------------------------------------------
